@@ -323,7 +323,8 @@ def run_case(case, ctx):
       v = o.value(rr)
       d1 = o.deriv(rr, 1)
       d2 = o.deriv(rr, 2)
-      if max(abs(v), abs(d1), abs(d2)) > mp.mpf("1e150"):
+      if max(abs(v), abs(d1), abs(d2)) > mp.mpf("1e150") or o.m.max_submag(o.node, rr) > mp.mpf("1e250"):
+        ctx.count("out_of_domain_points")    # (a factor beyond the range of doubles, even when another factor is zero)
         continue
       if o.underflows(rr):
         ctx.count("underflow_domain_points")   # an intermediate below ~1e-308 is flushed to zero by doubles
